@@ -11,74 +11,9 @@ import (
 // boundary, big integers, and rationals of all sizes, for every command of the property.
 type gen struct{ r *rand.Rand }
 
-func pow2(k uint) *big.Int { return new(big.Int).Lsh(big.NewInt(1), k) }
-
-func (g *gen) bigInt() *big.Int {
-	r := g.r
-	var b *big.Int
-	switch r.Intn(10) {
-	case 0, 1:
-		b = big.NewInt(int64(r.Intn(7) - 3))
-	case 2:
-		b = big.NewInt(int64(r.Intn(2001) - 1000))
-	case 3, 4: // around +-2^63
-		b = pow2(63)
-		b.Add(b, big.NewInt(int64(r.Intn(7)-3)))
-		if r.Intn(2) == 0 {
-			b.Neg(b)
-		}
-	case 5: // around 2^31, 2^32, 2^62, 2^64
-		b = pow2([]uint{31, 32, 62, 64}[r.Intn(4)])
-		b.Add(b, big.NewInt(int64(r.Intn(5)-2)))
-		if r.Intn(2) == 0 {
-			b.Neg(b)
-		}
-	case 6, 7: // random 64-bit pattern as int64
-		b = big.NewInt(int64(r.Uint64()))
-	case 8: // random up to 2^66
-		b = new(big.Int).Rand(r, pow2(66))
-		if r.Intn(2) == 0 {
-			b.Neg(b)
-		}
-	default: // random big
-		b = new(big.Int).Rand(r, pow2(uint(70+r.Intn(60))))
-		if r.Intn(2) == 0 {
-			b.Neg(b)
-		}
-	}
-	return b
-}
-
-// exact draws an exact number; big == false keeps rationals small (TLC reduces every result
-// with Euclid's algorithm on base-10^4 limbs: the cost grows with the size of the denominators).
-func (g *gen) exact() numx.Val { return g.exactB(true) }
-
-func (g *gen) exactB(big_ bool) numx.Val {
-	r := g.r
-	k := r.Intn(10)
-	if !big_ && k >= 8 {
-		k = 5
-	}
-	switch k {
-	case 0, 1, 2, 3, 4:
-		return numx.ExactInt(g.bigInt())
-	case 5, 6: // small rational
-		return numx.Exact(big.NewRat(int64(r.Intn(41)-20), int64(1+r.Intn(12))))
-	case 7: // half-integers at the boundary: rounding crosses 2^63
-		n := pow2(64)
-		n.Add(n, big.NewInt(int64(2*r.Intn(5)-5)))
-		if r.Intn(2) == 0 {
-			n.Neg(n)
-		}
-		return numx.Exact(new(big.Rat).SetFrac(n, big.NewInt(2)))
-	default:
-		d := g.bigInt()
-		if d.Sign() == 0 {
-			d = big.NewInt(3)
-		}
-		return numx.Exact(new(big.Rat).SetFrac(g.bigInt(), d))
-	}
-}
+func (g *gen) bigInt() *big.Int          { return (&numx.Gen{R: g.r}).BigInt() }
+func (g *gen) exact() numx.Val           { return (&numx.Gen{R: g.r}).Exact(true) }
+func (g *gen) exactB(big_ bool) numx.Val { return (&numx.Gen{R: g.r}).Exact(big_) }
 
 func (g *gen) float() numx.Val {
 	fs := []string{"0.0", "-0.0", "1.5", "-2.0", "+Inf", "-Inf", "NaN", "5e-324", "1e308"}
